@@ -286,13 +286,20 @@ def scn_split(T, case):
 
 # ------------------------------------------------------------------------------------ _run_evaluations
 def cases_run(tier):
-    for kinds in (("F",), ("G",), ("F", "G"), ("F", "F")):
-        for missing in itertools.product((False, True), repeat=len(kinds)):
-            for allfailed in (False, True):
+    # a single vector (functions, gradients or both) and parallel batches of 2, 3 and 4 vectors; every position of a result without
+    # functions / with all realizations failed (first, last and the ones in between)
+    for kinds in (("F",), ("G",), ("F", "G"), ("F", "F"), ("F", "F", "F"), ("F", "F", "F", "F")):
+        n = len(kinds)
+        single = [tuple(i == k for i in range(n)) for k in range(n)]
+        patterns = list(itertools.product((False, True), repeat=n)) if n <= 2 else [(False,) * n, (True,) * n] + single
+        for missing in patterns:
+            for allfailed in [(False,) * n, (True,) * n] + (single if n > 1 else []):
+                if n > 2 and any(missing) and any(allfailed):
+                    continue
                 for ms in (0, 1):
                     for allow_nan in (False, True):
-                        yield "%s/missing=%s/allfailed=%s/min=%d/allow_nan=%s" % ("".join(kinds), "".join("1" if m else "0" for m in missing), allfailed, ms, allow_nan), {
-                            "kinds": list(kinds), "missing": list(missing), "allfailed": allfailed, "ms": ms, "allow_nan": allow_nan}
+                        yield "%s/missing=%s/allfailed=%s/min=%d/allow_nan=%s" % ("".join(kinds), "".join("1" if m else "0" for m in missing), "".join("1" if m else "0" for m in allfailed), ms, allow_nan), {
+                            "kinds": list(kinds), "missing": list(missing), "allfailed": list(allfailed), "ms": ms, "allow_nan": allow_nan}
 
 
 def scn_run(T, case):
@@ -309,8 +316,8 @@ def scn_run(T, case):
         cls = T.func(MO, "EnsembleOptimizer")
         red = T.func(MO, "_Redirector")
     results = []
-    for kind, miss in zip(case["kinds"], case["missing"]):
-        real = types.SimpleNamespace(failed_realizations=np.array([case["allfailed"]] * 2))
+    for kind, miss, af in zip(case["kinds"], case["missing"], case["allfailed"]):
+        real = types.SimpleNamespace(failed_realizations=np.array([af] * 2))
         if kind == "F":
             results.append(FunctionResults(batch_id=None, metadata={}, evaluations=None, realizations=real, functions=None if miss else types.SimpleNamespace()))
         else:
@@ -324,7 +331,7 @@ def scn_run(T, case):
     opt._allow_nan = case["allow_nan"]
     opt._signal_evaluation = lambda res=None: log.append("start" if res is None else ("results", res))
     opt._function_evaluator = types.SimpleNamespace(calculate=lambda v, compute_functions, compute_gradients: (log.append("calculate"), results)[1])
-    too_few = any(case["missing"]) or (case["ms"] < 1 and not case["allow_nan"] and case["allfailed"])
+    too_few = any(case["missing"]) or (case["ms"] < 1 and not case["allow_nan"] and any(case["allfailed"]))
     try:
         out = opt._run_evaluations(np.zeros(1), compute_functions="F" in case["kinds"], compute_gradients="G" in case["kinds"])
     except OptimizationAborted as exc:
@@ -351,6 +358,23 @@ def scn_threshold(T, case):
     C18.scn_validators(Renamed(T, "C18.", "C03.config."), case)
 
 
+# ------------------------------------------------------------------------------------ filters on some functions + failed realizations, one request or two
+def cases_filters_and_failures(tier):
+    from contracts import C02
+
+    for cid, c in C02.cases_rows(tier):
+        if c.get("fail_real") is not None or c.get("fail_pert") is not None:
+            yield cid, c
+
+
+def scn_filters_and_failures(T, case):
+    """'As if the failed realizations were absent' when realization filters apply to some functions only and the failure shows in the function evaluation or only in the perturbations, for combined and split requests (C02's weight-row scenario under this property's prefix)."""
+    from contracts import C02
+    from contracts.reuse import Renamed
+
+    C02.scn_rows(Renamed(T, "C02.rows.", "C03.combined."), case)
+
+
 SCENARIOS = [
     Scenario("failure_flags", scn_flags, cases_flags, {"quick": 10, "thorough": 100}),
     Scenario("reduced_ensemble_equivalence", scn_equiv, cases_equiv, {"quick": 3, "thorough": 20}),
@@ -358,6 +382,7 @@ SCENARIOS = [
     Scenario("failed_through_perturbations", scn_pertfail, cases_pertfail, {"quick": 5, "thorough": 30}),
     Scenario("run_evaluations", scn_run, cases_run, {"quick": 1, "thorough": 1}),
     Scenario("validated_success_threshold", scn_threshold, cases_threshold, {"quick": 2, "thorough": 10}),
+    Scenario("filters_failures_and_combined_requests", scn_filters_and_failures, cases_filters_and_failures, {"quick": 5, "thorough": 30}),
 ]
 
 MANIFEST = {
